@@ -2,11 +2,22 @@
 
 Bounded-exhaustive enumeration of small parts (frames = divisions x meter/measures x key signatures;
 contents = note / tie-chain / grace / rest events on the frame's grid), score structures (lists,
-groups, scores of 2-3 parts with unequal divisions) and small note arrays (inverse direction).  Every
+groups, scores of 1-3 parts with unequal divisions) and small note arrays (inverse direction).  Every
 array returned by the real implementation is compared column by column with a reference table computed
 exactly (fractions) from the part description (mc/c05_ref.py).
+
+Clauses (names used in violations) and the sentence of the statement that licenses them:
+  row-set, id            one row per sounding note (tie chain = one row, graces kept), id; part-prefixed ids on request
+  onset-duration-div     onset and duration in divisions equal the timeline values (rescaled to the lcm for lists)
+  quarter-values, beat-values   equal the part's time maps (exact reference, float32 tolerance)
+  pitch, spelling, voice, staff, grace, key-signature, time-signature, metrical-position, divs-per-quarter
+                         every (optional) column equals what the score states at the note's onset
+  columns                every requested column is present
+  order                  rows ordered by onset, then pitch
+  array-built, rest-array-built   the array can be built for every in-domain part / option set
+  inverse-*, score-built-from-array, array-of-rebuilt-score   note_array_to_score(a).note_array() returns the same
+                         onsets, durations and pitches
 """
-import sys
 from fractions import Fraction as F
 from itertools import product
 
@@ -140,8 +151,6 @@ def check_array(res, arr, rows, flags, level, kind, where, ctx):
         need += FLAG_FIELDS[f]
     if "include_time_signature" in flags and kind == "note":
         need.append("ts_mus_beats")
-    if kind == "rest" and "include_pitch_spelling" in flags:
-        pass
     missing = [c for c in need if c not in names and not (kind == "rest" and c in ("step", "alter", "octave"))]
     if missing:
         res.fail("columns", expected=need, observed=list(arr.dtype.names), where=where, detail=ctx)
